@@ -342,6 +342,14 @@ Example c04_module_with_one_of_everything_reads_back : dec_wmod false everything
 Proof. exact everything_by_theorem. Qed.
 End ModuleBytes.
 
+
+(* how the input was ENCODED (padded LEB128, padded section sizes) cannot influence the output *)
+From WV Require Import Proofs.BytesEnd.
+Theorem c04_input_encoding_cannot_influence_the_output :
+  forall (cf : config) (ver : str) (ilen : wins -> N) (b b' : list N),
+    dec_wmod false b = dec_wmod false b' -> roundtrip_bytes cf ver ilen b = roundtrip_bytes cf ver ilen b'.
+Proof. exact bytes_determine_behaviour_inputs. Qed.
+
 Print Assumptions c04_attr_table_local.
 Print Assumptions c04_attr_table_import.
 Print Assumptions c04_attr_memory_local.
@@ -384,3 +392,4 @@ Print Assumptions c04_emitted_stream_has_bytes.
 Print Assumptions c04_emitted_bytes_read_back.
 Print Assumptions c04_noncanonical_element_segment_does_not_round_trip.
 Print Assumptions c04_module_with_one_of_everything_reads_back.
+Print Assumptions c04_input_encoding_cannot_influence_the_output.
